@@ -38,7 +38,29 @@ def system_input(c):
             [[cl["kind"] == "net", a, b] for cl, (a, b) in zip(c["clients"], ceps)], ops]
 
 
-def compare_system(c, obs, mout, check_clients=True):
+def loosen(view, other):
+    """BLOB payloads where exactly one side shows none: a definition (control connection) and an update (BLOB connection) of
+    the same property published together reach the mirror in an order the two connections do not determine"""
+    oth = {(d[0], v[0], e[0]): e[2] for d in other for v in d[1] if v[1] == "BLOB" for e in v[5]}
+    out = []
+    for d in view:
+        vs = []
+        for v in d[1]:
+            if v[1] == "BLOB":
+                es = []
+                for e in v[5]:
+                    o = oth.get((d[0], v[0], e[0]))
+                    if o is not None and (e[2] == ["raw", None]) != (o == ["raw", None]):
+                        es.append([e[0], e[1], "either"])
+                    else:
+                        es.append(e)
+                v = v[:5] + [es]
+            vs.append(v)
+        out.append([d[0], vs])
+    return out
+
+
+def compare_system(c, obs, mout, check_clients=True, blob_order="loose"):
     if obs["status"] != "ok":
         return "implementation %s %s" % (obs["status"], obs.get("detail", ""))
     if not isinstance(mout, list):
@@ -61,6 +83,8 @@ def compare_system(c, obs, mout, check_clients=True):
         if check_clients:
             for ci, (a, b) in enumerate(zip(st["clients"], mirrors)):
                 mm = clientgen.model_mirror(b)
+                if blob_order == "loose" and a != mm:
+                    a, mm = loosen(a, mm), loosen(mm, a)
                 if a != mm:
                     da = {d[0]: {v[0]: v for v in d[1]} for d in a}
                     dm = {d[0]: {v[0]: v for v in d[1]} for d in mm}
